@@ -77,6 +77,30 @@ def run(ctx):
     cases, dist = gen_cases(ctx.rng, ctx.tier)
     impl, mcases, iobs, model, diffs = run_cases(ctx, "hub", cases, exe)
     stats = search(ctx, cases, impl)
+    # free-running storm on the real Hub: stalls / panics below the granularity of the parked schedules
+    storms = []
+    for k in range(8 if ctx.tier == "thorough" else 3):
+        storms.append({"relays": ctx.rng.range(2, 6), "churners": ctx.rng.range(2, 5), "closers": ctx.rng.range(0, 2), "sessions": ctx.rng.range(1, 3),
+                       "millis": 2500 if ctx.tier == "thorough" else 1200, "stall_ms": 1000, "slow_sends": ctx.rng.choice([0, 0, 40])})
+    spath = os.path.join(ctx.workdir, "storm.cases")
+    open(spath, "w").write("\n".join("storm " + json.dumps(sp).encode().hex() for sp in storms) + "\n")
+    rc = ctx.run_harness(exe, spath, os.path.join(ctx.workdir, "storm.out"), timeout=300)
+    souts = open(os.path.join(ctx.workdir, "storm.out")).read().splitlines()
+    ctx.oblige("harness:storm", rc == 0 and len(souts) == len(storms), ctx.harness_stderr[-300:])
+    storm_ops = 0
+    for sp, so in zip(storms, souts):
+        try:
+            o = json.loads(so)
+        except Exception:
+            ctx.violation("C11:panic", f"the hub harness died in a free-running storm: {so[:200]}", {"storm": sp, "output": so[:2000]})
+            continue
+        storm_ops += o.get("ops", 0)
+        if o.get("stalled"):
+            ctx.violation("C11:hub-stalls", f"no hub operation completed for {sp['stall_ms']} ms while relays, joins, leaves and session closes ran concurrently; goroutines blocked on the hub lock in {sorted(set(o.get('blocked_in') or []))[:6]}",
+                          {"storm": sp, "result": o})
+        if o.get("panics"):
+            ctx.violation("C11:panic", f"panic in a hub operation during a free-running storm: {o['panics'][:2]}", {"storm": sp, "result": o})
+    stats["storm_ops"] = storm_ops
     if ctx.tier == "thorough":
         rexe = ctx.build_harness("hub", race=True)
         if rexe:
@@ -100,8 +124,10 @@ def run(ctx):
         "distribution": dist,
         "interleaved_runs": stats["interleaved"], "list_sendto_results_checked": stats["results"],
         "disagreements_model_vs_impl": len(diffs),
+        "storms": len(storms), "storm_hub_operations": stats.get("storm_ops", 0),
     })
     ctx.assumptions += [
+        "free-running storms (2-6 relays, 2-5 joiners/leavers with shared peer ids, 0-2 session closers, a watchdog on completed operations) sample schedules below the park granularity; they can show a stall or panic, not exclude one",
         "a model step = the real code between two park places; data races inside such a stretch are visible only to the -race run of the thorough tier",
         "connection ids passed to Add are pairwise distinct (the server draws them with protocol.NewMsgID) and a remove func is called only after its Add returned",
         "send functions of the harness return at once (a blocked socket write stalls only that connection's writer goroutine and delays its remove by the 1 s wait)",
